@@ -117,7 +117,7 @@ func digitsGen(min, max int) *rapid.Generator[string] {
 
 func genAmountString() *rapid.Generator[string] {
 	return rapid.Custom(func(t *rapid.T) string {
-		mode := rapid.IntRange(0, 7).Draw(t, "mode")
+		mode := rapid.IntRange(0, 9).Draw(t, "mode")
 		switch mode {
 		case 0: // plain representable
 			n := genU64().Draw(t, "n") >> rapid.UintRange(0, 40).Draw(t, "sh")
@@ -161,6 +161,14 @@ func genAmountString() *rapid.Generator[string] {
 			return base[:pos] + ins + base[pos:]
 		case 5:
 			return rapid.String().Draw(t, "s")
+		case 8, 9: // one or two token insertions into a string that HAS an exponent part (signs are legal in two places there)
+			base := digitsGen(0, 4).Draw(t, "int") + rapid.SampledFrom([]string{"", ".", "."}).Draw(t, "dot") + digitsGen(0, 4).Draw(t, "frac") +
+				rapid.SampledFrom([]string{"e", "E"}).Draw(t, "e") + rapid.SampledFrom([]string{"", "+", "-"}).Draw(t, "es") + strconv.Itoa(rapid.IntRange(0, 8).Draw(t, "exp"))
+			for k := rapid.IntRange(1, 2).Draw(t, "nins"); k > 0; k-- {
+				pos := rapid.IntRange(0, len(base)).Draw(t, "pos")
+				base = base[:pos] + rapid.SampledFrom([]string{"+", "-", "+", "-", ".", "e", "E", " ", "0"}).Draw(t, "ins") + base[pos:]
+			}
+			return base
 		case 6: // exponent forms that are exactly representable
 			n := rapid.Uint64Range(0, 1e12).Draw(t, "n")
 			e := rapid.IntRange(-6, 6).Draw(t, "e")
